@@ -133,11 +133,14 @@ def cmap_dir() -> str:
 class Sandbox:
     def __init__(self, pre_out: List[str]):
         self.root = os.path.realpath(tempfile.mkdtemp(prefix="c15_"))
-        self.out = os.path.join(self.root, "out")
-        self.victim = os.path.join(self.root, "victim")
+        # output_dir sits three levels below the sandbox root: a name that climbs one or two directories on a
+        # mutated tree still lands inside the sandbox
+        self.out = os.path.join(self.root, "n1", "n2", "out")
+        self.victim = os.path.join(self.root, "n1", "n2", "victim")
+        self.victim_top = os.path.join(self.root, "victim")
         self.rsrc = os.path.join(self.root, "rsrc")
         self.decoy = os.path.join(self.root, "decoy")
-        for d in (self.out, self.victim, self.rsrc, self.decoy, os.path.join(self.rsrc, "to-unicode-x"),
+        for d in (self.out, self.victim, self.victim_top, self.rsrc, self.decoy, os.path.join(self.rsrc, "to-unicode-x"),
                   os.path.join(self.rsrc, "sub")):
             os.makedirs(d)
         blob = gzip.compress(pickle.dumps(DECOY_PICKLE))
@@ -146,8 +149,9 @@ class Sandbox:
                   os.path.join(self.rsrc, "sub", "inner.pickle.gz"), os.path.join(self.root, "top.pickle.gz")):
             with open(p, "wb") as fp:
                 fp.write(blob)
-        with open(os.path.join(self.victim, "keep.bmp"), "wb") as fp:
-            fp.write(b"old")
+        for v in (self.victim, self.victim_top):
+            with open(os.path.join(v, "keep.bmp"), "wb") as fp:
+                fp.write(b"old")
         for n in pre_out:
             try:
                 with open(os.path.join(self.out, n), "wb") as fp:
@@ -237,7 +241,7 @@ def image_object(kind: str, i: int, objs: Dict[int, Any]):
 IMAGE_NAMES = [
     "Im0", "X", "../victim/pwn", "{ROOT}/victim/abs", "../out/../victim/deep", "a/b", "..", ".", "keep", "Im0", "Im0",
     "../victim/keep", "sub\x00name", "..\x00/victim/nul", "A" * 300, "\\..\\victim\\bs", "%s%d", "Im 0", "\xe9",
-    "{ROOT}/out/Im0", "./Im0", "Im0/", "{ROOT}//victim//dbl", "{ROOT}/victim/",
+    "{ROOT}/n1/n2/out/Im0", "./Im0", "Im0/", "{ROOT}//victim//dbl", "{ROOT}/victim/",
 ]
 
 
@@ -348,6 +352,26 @@ def build_pdf(case: Dict[str, Any], sb: Sandbox) -> bytes:
 
 # ------------------------------------------------------------------ running the implementation
 
+def safe_image_name(name: str, sb: "Sandbox") -> bool:
+    """Safety net of the harness itself: a hostile image name is only ever put into a document when NO plausible
+    (also mutated) way of joining it onto output_dir can leave the sandbox tree.  Refused: the bare separator and any
+    absolute name outside the sandbox (e.g. "/", "//x", "/x/": joined unsanitised they hit the real file system), names
+    with more than two `..` components, and names whose lexical join leaves the sandbox."""
+    n = name.replace("\x00", "")
+    if n.startswith("/") and not n.startswith(sb.root + "/"):
+        return False
+    if n.strip("/") == "" and n != "":
+        return False
+    if [c for c in n.split("/")].count("..") > 2:
+        return False
+    for variant in (n, n.rstrip("/"), n.lstrip("/") if not n.startswith(sb.root) else n):
+        for ext in (".bmp", ".0.bmp", ""):
+            p = os.path.normpath(os.path.join(sb.out, variant + ext))
+            if not (p + "/").startswith(sb.root + "/"):
+                return False
+    return True
+
+
 def run_impl(case: Dict[str, Any]):
     """Returns dict(opens=[(path, mode)], other=[events], created=[rel paths], changed=[rel paths], exc=..., sb paths)."""
     from pdfminer.cmapdb import CMapDB
@@ -359,8 +383,7 @@ def run_impl(case: Dict[str, Any]):
         # safety net of the harness itself: even the UNREPAIRED code must not be able to write outside the sandbox
         case = dict(case)
         kinds = list(case.get("imgkinds") or ["bmp8"] * len(case["images"]))
-        keep = [i for i, n in enumerate(case["images"])
-                if os.path.normpath(os.path.join(sb.out, fill(n, sb).replace("\x00", "") + ".bmp")).startswith(sb.root + "/")]
+        keep = [i for i, n in enumerate(case["images"]) if safe_image_name(fill(n, sb), sb)]
         case["images"] = [case["images"][i] for i in keep]
         case["imgkinds"] = [kinds[i] for i in keep if i < len(kinds)]
         pdf = build_pdf(case, sb)
@@ -723,7 +746,7 @@ def resolve_ties(ctx: C.Ctx, lines, impl, inputs) -> None:
                 st["queue"] = [q for q in st["queue"] if q[3] != run]
                 continue
             st["cur"].append(name)
-            st["created"].append(os.path.relpath(os.path.normpath(path), os.path.dirname(st["outdir"])))
+            st["created"].append(os.path.relpath(os.path.normpath(path), os.path.dirname(os.path.dirname(os.path.dirname(st["outdir"])))))
             if aborts:
                 # the file exists, then Pillow is missing: ImportError ends this run
                 st["queue"] = [q for q in st["queue"] if q[3] != run]
